@@ -4,6 +4,7 @@ CONSTANTS
   MaxInputs = 1
   Alphabet = "core"
   EmitOpts = 2
+  EmitNames = {"a.c"}
   EmitInputs = 1
   Devs = {"ArgcDesync", "OneCharName", "EmitQbeFile", "HeaderLinked"}
 INVARIANTS Inv_Refines Inv_Explained Inv_Emit
